@@ -270,7 +270,7 @@ func runRawServer(t *simrt.Tape, keep bool) simrt.Outcome {
 	}()
 	select {
 	case <-finished:
-	case <-time.After(20 * time.Second):
+	case <-simrt.After20s():
 		r.fail("C06.cmd-never-ends", map[string]string{"nominimise": "1"}, "%s: the command has not returned 20 s after it was started (request timeout 700ms): a hit never yields its result", cmdline)
 		return r.outcome(nil, true)
 	}
